@@ -9,7 +9,7 @@ Exit 0: property held on everything explored.  Exit 1: a line
   VIOLATION property=Cxx replay=<path> [no-failing-input-found]
 """
 import hashlib
-import json
+import json, shutil
 import os
 import re
 import subprocess
@@ -65,7 +65,7 @@ def build_harness(profile, feature="blst"):
     if profile == "release":
         cmd.append("--release")
     if feature != "blst":
-        cmd += ["--no-default-features", "--features", feature]
+        cmd += ["-p", "blsdiff", "--no-default-features", "--features", feature]
     rc, out, err = sh(cmd, cwd=HARNESS, timeout=3600)
     binp = os.path.join(tdir, "release" if profile == "release" else "debug", "blsdiff")
     return rc == 0, binp, (out + err)[-4000:]
@@ -77,6 +77,60 @@ def build_coq(targets):
         sh("coq_makefile -f _CoqProject -o Makefile", cwd=COQ)
     rc, out, err = sh(["make", "-j16"] + targets, cwd=COQ, timeout=3000)
     return rc == 0, out + err
+
+
+REFINE = {
+    # property -> Refine/<file>.v whose lemmas tie the generated code (rs2v) to the model
+    "C01": ["SigCore", "SigSchemes"], "C02": ["SigCore", "SigSchemes"], "C03": ["Consts", "SigSchemes"],
+    "C04": ["SigCore", "SigSchemes", "PoK", "SignCrypt", "TimeLock", "ElGamal"], "C05": ["Consts", "SigSchemes"],
+    "C06": ["SigCore", "SigSchemes"], "C07": ["SigSchemes"], "C08": ["SigCore"], "C09": ["SigSchemes"],
+    "C10": ["PoK"], "C11": ["SignCrypt"], "C12": ["SignCrypt", "SigCore"], "C13": ["TimeLock"],
+    "C14": ["ElGamal", "Consts"], "C15": ["Consts"], "C16": ["Consts"], "C17": ["PoK", "SignCrypt", "TimeLock"],
+    "C18": ["Consts", "PoK", "SignCrypt", "TimeLock", "ElGamal"], "C19": [], "C20": ["PoK", "SignCrypt", "TimeLock"],
+}
+
+
+class CoqLock:
+    """serialises the Coq builds of concurrently running checks (they share coq/*.vo)"""
+    def __enter__(self):
+        import fcntl
+        os.makedirs(CACHE, exist_ok=True)
+        self.f = open(os.path.join(CACHE, "coq.lock"), "w")
+        fcntl.flock(self.f, fcntl.LOCK_EX)
+        return self
+
+    def __exit__(self, *a):
+        import fcntl
+        fcntl.flock(self.f, fcntl.LOCK_UN)
+        self.f.close()
+
+
+def regen():
+    """Translator tie: run rs2v over /repo/src and refresh coq/Gen/*.v when their content changed."""
+    binp = os.path.join(HARNESS, "target", "debug", "rs2v")
+    if not os.path.exists(binp):
+        return False, "rs2v binary missing (harness build failed)", {}
+    tmp = os.path.join(CACHE, "gen-%d" % os.getpid())
+    os.makedirs(tmp, exist_ok=True)
+    rc, out, err = sh([binp, os.path.join(REPO, "src"), tmp], timeout=300)
+    stats = {"translated": None, "not_translated": []}
+    m = re.search(r"rs2v: (\d+) functions translated, (\d+) not translated", err)
+    if m:
+        stats["translated"] = int(m.group(1))
+    stats["not_translated"] = re.findall(r"not translated: (.*)", err)
+    if rc != 0:
+        shutil.rmtree(tmp, ignore_errors=True)
+        return False, (out + err)[-1500:], stats
+    gdir = os.path.join(COQ, "Gen")
+    os.makedirs(gdir, exist_ok=True)
+    with CoqLock():
+        for f in sorted(os.listdir(tmp)):
+            new = open(os.path.join(tmp, f)).read()
+            dst = os.path.join(gdir, f)
+            if not os.path.exists(dst) or open(dst).read() != new:
+                open(dst, "w").write(new)
+    shutil.rmtree(tmp, ignore_errors=True)
+    return True, "", stats
 
 
 def build_driver():
@@ -114,26 +168,59 @@ def coq_obligations(prop):
         t = re.sub(r"\(\*.*?\*\)", "", open(f).read(), flags=re.S)
         for m in re.finditer(r"\b(Admitted|admit|Axiom|Parameter|Conjecture|Unset Guard|bypass_check|Admit Obligations)\b", t):
             banned.append("%s: %s" % (os.path.relpath(f, ROOT), m.group(1)))
-    vo = os.path.join(COQ, "Props", prop + ".vo")
-    if os.path.exists(vo):
-        os.remove(vo)  # force Print Assumptions output
-    ok, log = build_coq(["Props/%s.vo" % prop] + cfg.get("extra_vo", []))
-    closed = log.count("Closed under the global context")
-    axioms = re.findall(r"^Axioms:\n((?:.+\n)+)", log, re.M)
-    for n in names:
-        obligations.append({"name": n, "file": "coq/Props/%s.v" % prop,
-                            "status": "discharged" if ok and not banned else "broken"})
-    problems = []
-    if not ok:
-        m = re.search(r'File "([^"]+)", line (\d+).*?\nError:(.*?)(?:\n\n|\Z)', log, re.S)
-        problems.append({"kind": "coq-build", "where": (m.group(1) + ":" + m.group(2)) if m else "?",
-                         "error": (m.group(3).strip()[:600] if m else log[-800:])})
-    if banned:
-        problems.append({"kind": "banned-construct", "where": banned[:10]})
-    if ok and closed < len(names):
-        problems.append({"kind": "assumptions", "where": "Print Assumptions: %d closed of %d; %s" % (closed, len(names), axioms[:3])})
-        for o in obligations:
-            o["status"] = "broken"
+    refine_files = REFINE.get(prop, [])
+    with CoqLock():
+        vo = os.path.join(COQ, "Props", prop + ".vo")
+        if os.path.exists(vo):
+            os.remove(vo)  # force Print Assumptions output
+        ok, log = build_coq(["Props/%s.vo" % prop] + cfg.get("extra_vo", []))
+        closed = log.count("Closed under the global context")
+        axioms = re.findall(r"^Axioms:\n((?:.+\n)+)", log, re.M)
+        for n in names:
+            obligations.append({"name": n, "file": "coq/Props/%s.v" % prop,
+                                "status": "discharged" if ok and not banned else "broken"})
+        problems = []
+        if not ok:
+            m = re.search(r'File "([^"]+)", line (\d+).*?\nError:(.*?)(?:\n\n|\Z)', log, re.S)
+            problems.append({"kind": "coq-build", "where": (m.group(1) + ":" + m.group(2)) if m else "?",
+                             "error": (m.group(3).strip()[:600] if m else log[-800:])})
+        if banned:
+            problems.append({"kind": "banned-construct", "where": banned[:10]})
+        if ok and closed < len(names):
+            problems.append({"kind": "assumptions", "where": "Print Assumptions: %d closed of %d; %s" % (closed, len(names), axioms[:3])})
+            for o in obligations:
+                o["status"] = "broken"
+        # refinement lemmas: generated code (rs2v over /repo/src) = model, one file per source file
+        for rf in refine_files:
+            vfile = os.path.join(COQ, "Refine", rf + ".v")
+            rsrc = open(vfile).read()
+            rnames = re.findall(r"^\s*(?:Lemma|Theorem)\s+((?:r_|source_|model_)\w+)", rsrc, re.M)
+            rvo = os.path.join(COQ, "Refine", rf + ".vo")
+            if os.path.exists(rvo):
+                os.remove(rvo)
+            rok, rlog = build_coq(["Refine/%s.vo" % rf])
+            rclosed = rlog.count("Closed under the global context")
+            expected = len(re.findall(r"^Print Assumptions", rsrc, re.M))
+            good = rok and not banned and rclosed >= expected
+            for n in rnames:
+                obligations.append({"name": "refine:" + n, "file": "coq/Refine/%s.v" % rf,
+                                    "status": "discharged" if good else "broken"})
+            if not rok:
+                m = re.search(r'File "([^"]+)", line (\d+).*?\nError:(.*?)(?:\n\n|\Z)', rlog, re.S)
+                where = (m.group(1) + ":" + m.group(2)) if m else "?"
+                lemma = None
+                if m and os.path.exists(os.path.join(COQ, m.group(1))):
+                    lines = open(os.path.join(COQ, m.group(1))).read().splitlines()[:int(m.group(2))]
+                    for l in reversed(lines):
+                        mm = re.match(r"\s*(?:Lemma|Theorem|Definition)\s+(\w+)", l)
+                        if mm:
+                            lemma = mm.group(1)
+                            break
+                problems.append({"kind": "refinement-broken", "where": where, "lemma": lemma,
+                                 "error": (m.group(3).strip()[:600] if m else rlog[-800:]),
+                                 "meaning": "the Gallina code regenerated from /repo/src no longer equals the model (or is no longer translatable)"})
+            elif rclosed < expected:
+                problems.append({"kind": "assumptions", "where": "Refine/%s.v: %d closed of %d" % (rf, rclosed, expected)})
     return obligations, problems
 
 
@@ -388,6 +475,8 @@ def setup():
             return 1
     ok, _, log = build_harness("debug", feature="rust")
     print("harness debug (pure-Rust backend): %s" % ("ok" if ok else "FAILED\n" + log))
+    ok, log, st = regen()
+    print("rs2v: %s %s" % ("ok" if ok else "FAILED " + log, st))
     sh("coq_makefile -f _CoqProject -o Makefile", cwd=COQ)
     ok, log = build_coq([])
     print("coq: %s" % ("ok" if ok else "FAILED\n" + log[-3000:]))
@@ -454,6 +543,9 @@ def main():
             bins[prof] = b
         else:
             build_problems.append({"kind": "harness-build", "profile": prof, "error": log[-1500:]})
+    rg_ok, rg_log, rg_stats = regen()
+    if not rg_ok:
+        build_problems.append({"kind": "translator-failed", "error": rg_log})
     okd, drv, dlog = build_driver()
     if not okd:
         build_problems.append({"kind": "driver-build", "error": dlog[-1500:]})
@@ -524,6 +616,7 @@ def main():
                 "hypotheses of the theorems: FieldLaws K (BLS12-381 scalar field is a field: not proved here), OracleLaws where named",
                 "dlog model of the pairing groups (DESIGN.md 3.1); oracles for hash-to-curve, HKDF, SHAKE128, SHA-256, merlin, point/scalar encodings, ChaCha20 (DESIGN.md 3.2)",
                 "correspondence check: extraction (ExtrOcamlBasic directives only), ocaml/driver.ml, harness/blsdiff (Rust), hooks --cfg blsful_verif in /repo",
+                "translator tie: harness/rs2v (Rust, syn) and the vocabulary coq/Refine/Prelude.v into which it maps Rust operations; calls into external crates map to the model's hand-written primitives",
             ],
             "evaluations": corr["cases"] * max(1, len(corr["profiles"])) + srch["evaluations"],
             "distinct_nontrivial": corr["cases"] + srch["distinct"],
@@ -536,6 +629,8 @@ def main():
             "search": {"evaluations": srch["evaluations"], "distinct": srch["distinct"],
                        "classes": srch["classes"], "failures": len(srch["failures"])},
             "hand_modelled": cfg.get("hand_modelled", []),
+            "translator": {"tool": "harness/rs2v (syn-based, run on /repo/src on every check)", "functions_translated": rg_stats.get("translated"),
+                           "not_translated": rg_stats.get("not_translated"), "refine_files": REFINE.get(prop, [])},
             "known_findings_hit": len(known_hits),
         },
         "assumptions": cfg.get("assumptions", []),
